@@ -312,6 +312,13 @@ def scenarios():
         S.append(("queue-limit", (R, 1, -1, Q), ["C0", "C0", "C0", "B.1", call(0, "u1", 7, 1), call(0, "u2", 8, 2), call(0, "u2", 9, 3), "U.1", call(0, "u1", 7, 4)]))
         S.append(("queue-reply-serial", (R, 4, -1, Q), ["C0", "C0", "C0", call(2, "u0", 5, 1), "B.1", ret(0, "u1", 6, 5, 2), ret(0, "u2", 7, 5, 3), "S.0.s.0.0.8.9.u1.0.4", "U.1",
                                                         ret(0, "u1", 9, 5, 5)]))
+    # activation: messages held for t.N8 are released in order to whoever acquires it, before its RequestName reply
+    for R in (0, 1):
+        S.append(("act-hold-release", (R, 50, -1), ["C0", "C0", "C0", call(0, "n8", 3, 1, nr=1), "S.0.s.0.0.4.0.n8.0.2", call(2, "n8", 5, 3), call(0, "n8", 6, 4, nr=1, na=1),
+                                                   call(0, "n3", 7, 5, nr=1), "R.1.9.8.0", "S.0.s.0.0.8.0.n8.0.6", ret(1, "u2", 2, 5, 7), "L.1.10.8",
+                                                   call(0, "n8", 11, 8, nr=1), "D.0", "R.2.12.8.0"]))
+        S.append(("act-six-in-a-row", (R, 50, -1), ["C0", "C0"] + [call(0, "n9", 30 + i, 1 + i, nr=1) for i in range(6)] + ["R.1.9.9.4", call(0, "n9", 40, 9, nr=1)]))
+        S.append(("act-reply-serial", (R, 50, -1), ["C0", "C0", "C0", call(1, "u0", 5, 1), ret(0, "n8", 6, 5, 2), "S.0.s.0.0.7.0.n8.0.3", "R.1.9.8.0"]))
     S.append(("queue-eavesdropper", (0, 4, -1, Q), ["C0", "C0", "C0", "M.2.20.1.x.x.x", "B.2", "S.0.s.0.0.7.0.u1.0.1", call(0, "u1", 8, 2), "U.2", "S.0.s.0.0.9.0.u1.0.3"]))
     return S
 
